@@ -12,6 +12,9 @@ CLAIMED = {
     "C15": ("Lean 4 theorems over the path grammar (every alias/number spelling and separator mix yields the CIP route bytes of the hops; shortcuts; four rejection classes, each universally quantified over the rest of the string) + differential correspondence incl. single-edit corruptions",
             "parse+encode proved equal to an independent CIP port-segment reference for all well-formed routes; odd segments / unknown port name / bad link / bad TCP port proved rejected; arbitrary corruptions by correspondence only (partial)",
             "DESIGN.md §7 C15"),
+    "C09": ("Lean 4 theorems: encode then independently parse = intended segments, for all logical values < 2^32 and types, port/link forms, symbols, request paths, and rendered tag strings of any depth with 0-3 indices and symbol-instance addressing + differential correspondence and an independent Python EPATH parser as oracle",
+            "every emitted path class proved to be a well-formed padded EPATH that a strict parser written from the CIP specification decodes to the intent; string-level tag parsing included",
+            "DESIGN.md §7 C09"),
     "C07": ("Lean 4 theorems: closed forms of encode/decode (wire layout) + decide +kernel over the regenerated type-code table; differential correspondence model vs pycomm3 vs an independent reference codec (exhaustive for 1-2 byte types)",
             "kernel-checked closed forms of the codec model for every width/value (little-endian two's complement, BOOL 00/FF, LSB-first bit strings, string prefixes, padded fixed strings, concatenated arrays, every byte pattern decoded), tied to the code by regenerated tables and differential execution",
             "DESIGN.md §7 C07"),
